@@ -73,6 +73,58 @@ func cUpdate(db, coll string, many bool, filter, update bson.D, upsert bool) e1.
 	}}
 }
 
+// cUpdateByID is UpdateByID (a wrapper over UpdateOne with an _id filter in lungo).
+func cUpdateByID(db, coll string, id interface{}, update bson.D, upsert bool) e1.Call {
+	return e1.Call{Name: fmt.Sprintf("%s.%s.UpdateByID(%s,%s,upsert=%v)", db, coll, J(bson.D{{Key: "id", Value: id}}), J(update), upsert), Do: func(w *world.World) string {
+		return obsUpdate(w.C(db, coll).UpdateByID(w.Ctx, id, update, options.Update().SetUpsert(upsert)))
+	}}
+}
+
+// cUpdateAF is UpdateOne/UpdateMany with array filters.
+func cUpdateAF(db, coll string, many bool, filter, update bson.D, af []bson.D) e1.Call {
+	name := "UpdateOne"
+	if many {
+		name = "UpdateMany"
+	}
+	return e1.Call{Name: fmt.Sprintf("%s.%s.%s(%s,%s,arrayFilters=%s)", db, coll, name, J(filter), J(update), J(af)), Do: func(w *world.World) string {
+		var fs []interface{}
+		for _, f := range af {
+			fs = append(fs, f)
+		}
+		opt := options.Update().SetArrayFilters(options.ArrayFilters{Filters: fs})
+		if many {
+			return obsUpdate(w.C(db, coll).UpdateMany(w.Ctx, filter, update, opt))
+		}
+		return obsUpdate(w.C(db, coll).UpdateOne(w.Ctx, filter, update, opt))
+	}}
+}
+
+// cCreateMany is Indexes().CreateMany (lungo creates the indexes one after the other, each in its own commit).
+func cCreateMany(db, coll string, keys []bson.D, os []idxOpt) e1.Call {
+	label := ""
+	for i := range keys {
+		label += fmt.Sprintf("[%s,unique=%v,name=%q]", J(keys[i]), os[i].unique, os[i].name)
+	}
+	return e1.Call{Name: fmt.Sprintf("%s.%s.CreateMany(%s)", db, coll, label), Do: func(w *world.World) string {
+		var ms []mongo.IndexModel
+		for i := range keys {
+			opt := options.Index()
+			if os[i].unique {
+				opt.SetUnique(true)
+			}
+			if os[i].partial != nil {
+				opt.SetPartialFilterExpression(os[i].partial)
+			}
+			if os[i].name != "" {
+				opt.SetName(os[i].name)
+			}
+			ms = append(ms, mongo.IndexModel{Keys: keys[i], Options: opt})
+		}
+		names, err := w.C(db, coll).Indexes().CreateMany(w.Ctx, ms)
+		return world.ErrClass(err) + " names=" + strings.Join(names, ",")
+	}}
+}
+
 func cReplace(db, coll string, filter, repl bson.D, upsert bool) e1.Call {
 	return e1.Call{Name: fmt.Sprintf("%s.%s.ReplaceOne(%s,%s,upsert=%v)", db, coll, J(filter), J(repl), upsert), Do: func(w *world.World) string {
 		return obsUpdate(w.C(db, coll).ReplaceOne(w.Ctx, filter, repl, options.Replace().SetUpsert(upsert)))
